@@ -12,6 +12,9 @@ import (
 
 var Canceled = errors.New("context canceled")
 
+// DeadlineExceeded is what Err() returns for a context ended by its deadline (see WithDeadlineManual).
+var DeadlineExceeded = errors.New("context deadline exceeded")
+
 type Context interface {
 	Done() *vchan.Chan[struct{}]
 	Err() error
@@ -32,21 +35,55 @@ func TODO() Context       { return bg }
 type cancelCtx struct {
 	done     *vchan.Chan[struct{}]
 	err      error
+	cause    error
 	children []*cancelCtx
 }
 
 func (c *cancelCtx) Done() *vchan.Chan[struct{}] { return c.done }
 func (c *cancelCtx) Err() error                  { return c.err }
 
-func (c *cancelCtx) cancel() {
+func (c *cancelCtx) cancel() { c.end(Canceled) }
+
+// end finishes the context with the given error; children inherit the parent's error, as in package context.
+func (c *cancelCtx) end(err error) {
 	if c.err != nil {
 		return
 	}
-	c.err = Canceled
+	c.err = err
 	c.done.ForceClose()
 	for _, ch := range c.children {
-		ch.cancel()
+		if ch.cause == nil {
+			ch.cause = c.cause
+		}
+		ch.end(err)
 	}
+}
+
+// CancelCauseFunc mirrors context.CancelCauseFunc.
+type CancelCauseFunc func(cause error)
+
+// WithCancelCause mirrors context.WithCancelCause: Err() is Canceled, Cause() the given error.
+func WithCancelCause(parent Context) (Context, CancelCauseFunc) {
+	ctx, _ := WithCancel(parent)
+	c := ctx.(*cancelCtx)
+	return c, func(cause error) {
+		vsched.StepK(vsched.KCancel)
+		if c.err == nil {
+			c.cause = cause
+		}
+		c.cancel()
+	}
+}
+
+// Cause mirrors context.Cause: the cause recorded when the context (or an ancestor) was cancelled with one, else Err().
+func Cause(ctx Context) error {
+	if c, ok := ctx.(*cancelCtx); ok && c.err != nil {
+		if c.cause != nil {
+			return c.cause
+		}
+		return c.err
+	}
+	return ctx.Err()
 }
 
 // WithCancel mirrors context.WithCancel; the returned cancel is one logged access.
@@ -54,7 +91,7 @@ func WithCancel(parent Context) (Context, CancelFunc) {
 	c := &cancelCtx{done: vchan.Make[struct{}](0)}
 	if p, ok := parent.(*cancelCtx); ok {
 		if p.err != nil {
-			c.cancel()
+			c.end(p.err)
 		} else {
 			p.children = append(p.children, c)
 		}
@@ -62,5 +99,22 @@ func WithCancel(parent Context) (Context, CancelFunc) {
 	return c, func() {
 		vsched.StepK(vsched.KCancel)
 		c.cancel()
+	}
+}
+
+// WithDeadlineManual is a context with a deadline whose expiry is an event of the scenario (wall-clock time does not
+// exist in the controlled runs): expire ends it with DeadlineExceeded, as WithDeadline / WithTimeout contexts end.
+func WithDeadlineManual(parent Context) (ctx Context, expire func()) {
+	c := &cancelCtx{done: vchan.Make[struct{}](0)}
+	if p, ok := parent.(*cancelCtx); ok {
+		if p.err != nil {
+			c.end(p.err)
+		} else {
+			p.children = append(p.children, c)
+		}
+	}
+	return c, func() {
+		vsched.StepK(vsched.KCancel)
+		c.end(DeadlineExceeded)
 	}
 }
